@@ -28,6 +28,10 @@ Theorem C16_inline_outline : forall s c j,
   wf_convb s c = true -> canon_json s c = Ok j -> inline_of s j = Xmi.canon_xmi s c.
 Proof. exact inline_outline. Qed.
 Print Assumptions C16_inline_outline.
+Theorem C16_inline_outline_at : forall s c, wf_convb s c = true ->
+  (do j <- canon_json s c ;; inline_of s j) = Xmi.canon_xmi s c.
+Proof. exact inline_outline_at_wf. Qed.
+Print Assumptions C16_inline_outline_at.
 (* both views exist for a well-formed CAS (totality of canon_json and canon_xmi), and the JSON save leaves it unchanged *)
 Theorem C16_inline_outline_total : forall s c, wf_convb s c = true ->
   exists j x, canon_json s c = Ok j /\ Xmi.canon_xmi s c = Ok x /\ inline_of s j = Ok x.
